@@ -13,7 +13,7 @@ jobs = int(sys.argv[sys.argv.index("--jobs") + 1]) if "--jobs" in sys.argv else 
 
 def one(d):
     sid = d.name
-    prop = sid.split("-")[0]
+    prop = json.loads((d / "meta.json").read_text()).get("check_with", [sid.split("-")[0]])[0]
     r = subprocess.run([str(VERIF / "tools" / "seedcheck.py"), str(d), sid, prop], capture_output=True, text=True)
     try:
         res = json.loads(r.stdout)
@@ -33,7 +33,7 @@ for d in dirs:
     sid = d.name
     meta = json.loads((d / "meta.json").read_text())
     res = results[sid]
-    prop = sid.split("-")[0]
+    prop = meta.get("check_with", [sid.split("-")[0]])[0]
     c = (res.get("checks") or {}).get(prop, {})
     verdict = "error" if "error" in res else ("caught (failing input)" if c.get("kind") == "failing-input" else
               "reported, no-failing-input-found" if c.get("rc") == 1 else "MISSED")
